@@ -86,3 +86,17 @@ M("c08_count_diff_sign", KP, "                        node.num_samples_in_compar
 M("c08_one_child_again", KP, "            or not np.any(data[:, axis] > midpoint_at_axis)\n", "", ["C08"])
 M("c08_internal_count_on_empty_fill", KP, "        if tree_id not in node.num_samples_in_compared_subtrees.keys() or reset:\n            node.num_samples_in_compared_subtrees[tree_id] = total_points\n        else:",
   "        if tree_id not in node.num_samples_in_compared_subtrees.keys() or (reset and total_points > 0):\n            node.num_samples_in_compared_subtrees[tree_id] = total_points\n        else:", ["C08"])
+
+KD = "menelaus/data_drift/kdq_tree.py"
+M("c09_quantile_alpha", KD, "return np.quantile(critical_distances, 1 - self.alpha, method=\"nearest\")", "return np.quantile(critical_distances, self.alpha, method=\"nearest\")", ["C09", "C17"])
+M("c09_bootstrap_size_n", KD, "b_sample = np.random.choice(bin_indices, size=2 * sample_size, p=ref_dist)\n            b_hist1 = unique(b_sample[:sample_size], return_counts=True)\n            b_hist2 = unique(b_sample[sample_size:], return_counts=True)",
+  "b_sample = np.random.choice(bin_indices, size=sample_size, p=ref_dist)\n            b_hist1 = unique(b_sample[:sample_size // 2], return_counts=True)\n            b_hist2 = unique(b_sample[sample_size // 2:], return_counts=True)", ["C09"])
+M("c09_stream_sample_size_ref_count", KD, "sample_size = self.window_size if input_type == \"stream\" else sum(ref_counts)", "sample_size = sum(ref_counts) // 2 if input_type == \"stream\" else sum(ref_counts)", ["C09"])
+M("c09_decision_ge", KD, "                if test_dist > self._critical_dist:", "                if test_dist >= self._critical_dist:", ["C09"])
+M("c09_batch_keeps_old_reference", KD, "                        self.drift_state = \"drift\"\n                        self.ref_data = ary\n", "                        self.drift_state = \"drift\"\n                        self.ref_data = self._ref_data if hasattr(self, \"ref_data\") else ary\n", ["C09", "C02"])
+M("c09_persistence_cumulative_again", KD, "                elif input_type == \"stream\":\n                    # persistence counts samples in a row in the drift region\n                    self._drift_counter = 0\n", "", ["C09"])
+M("c09_persistence_ge", KD, "if self._drift_counter > self.persistence * self.window_size:", "if self._drift_counter >= self.persistence * self.window_size:", ["C09"])
+M("c09_stream_early_test", KD, "if input_type == \"batch\" or (self._test_data_size >= self.window_size):", "if input_type == \"batch\" or (self._test_data_size >= self.window_size - 1):", ["C09", "C01"])
+M("c09_stream_test_window_reset", KD, "self._kdqtree.fill(ary, tree_id=\"test\", reset=(input_type == \"batch\"))", "self._kdqtree.fill(ary, tree_id=\"test\", reset=(input_type == \"batch\" or self._test_data_size == 2 * self.window_size))", ["C09"])
+M("c09_bootstrap_uniform_p", KD, "b_sample = np.random.choice(bin_indices, size=2 * sample_size, p=ref_dist)", "b_sample = np.random.choice(bin_indices, size=2 * sample_size)", ["C09"])
+M("c09_drift_counter_not_reset", KD, "        self._drift_counter = 0  # samples consecutively in the drift region\n", "        self._drift_counter = getattr(self, \"_drift_counter\", 0) // 2  # samples consecutively in the drift region\n", ["C09", "C02"])
